@@ -282,7 +282,7 @@ def enum_cases(tier):
     idx = 0
     for n in range(1, nmax + 1):
         for gi, shape in enumerate(dags.all_dags(n)):
-            gl = dags.dag_spec(shape, "legacy", "str" if gi % 2 else "mixed")
+            gl = dags.dag_spec(shape, "legacy", ["mixed", "str", "collide", "str", "dashed", "str"][gi % 6])
             gt = dags.dag_spec(shape, "taskspec", "str" if gi % 2 else "tuple")
             reqs = [list(c) for r in range(1, n + 1) for c in itertools.combinations(range(n), r)]
             for req in reqs:
